@@ -68,7 +68,8 @@ def range? : Sexp → Option (Nat × Nat)
   | .list [a, b] => do
     let a ← a.nat?
     let b ← b.nat?
-    if (charToAlphabetIndex a).isSome && (charToAlphabetIndex b).isSome then some (a, b) else none
+    -- a range the parser rejects ("Invalid letter range") is not a program
+    if (charToAlphabetIndex a).isSome && (charToAlphabetIndex b).isSome && rangeAccepted a b then some (a, b) else none
   | _ => none
 
 def item? : Sexp → Option Item
@@ -119,7 +120,8 @@ def showVal (v : Val) : String :=
 
 def showOutcome : Outcome → String
   | .rejected e => "(err " ++ showErr e ++ ")"
-  | .accepted tr out =>
+  | .accepted _ _ false => "(ok-unresolved)"
+  | .accepted tr out true =>
     "(ok (" ++ " ".intercalate (tr.map showRes) ++ ") " ++
       (match out with
        | none => "diverges"
@@ -135,6 +137,11 @@ def handle (cmd : String) (args : List Sexp) : Option String :=
       match charToAlphabetIndex b with
       | some i => pure (toString i)
       | none => pure "panic"
+  | "names.rangeok", [a, b] => do
+      let a ← a.nat?; let b ← b.nat?
+      if (charToAlphabetIndex a).isSome && (charToAlphabetIndex b).isSome then
+        pure (toString (Sexp.ofBool (rangeAccepted a b)))
+      else none
   | "names.ci", [a, b] => do
       let a ← a.nats?; let b ← b.nats?
       pure (toString (Sexp.ofBool (ciEq a b)))
